@@ -39,3 +39,14 @@ Definition first_wins_expected : list (string * bool) :=
 
 Lemma handlers_first_wins : index_handlers = first_wins_expected.
 Proof. reflexivity. Qed.
+
+(* alias keys (Model.C04_Alias): the handler only queues, the resolution happens in the post-index
+   action, which UpdateIndex runs after the scan of the whole log and which walks its whole queue
+   (no return inside the loop: an event it cannot resolve is skipped) *)
+Lemma alias_resolution_is_deferred :
+  alias_handler_touches = ["eventsContactAddAliasKey"] /\
+  alias_post_action_touches = ["eventsContactAddAliasKey"; "unsafeGetMemberByDevice"; "ownMemberDevice"; "ownAliasKeySent"; "otherAliasKey"] /\
+  post_index_actions = ["m.postHandlerSentAliases"] /\
+  post_actions_run_after_scan = true /\
+  alias_walk_can_stop_early = false.
+Proof. repeat split; reflexivity. Qed.
